@@ -13,6 +13,7 @@ import (
 	sdk "github.com/cosmos/cosmos-sdk/types"
 	"github.com/ethereum/go-ethereum/common"
 	"github.com/ethereum/go-ethereum/core"
+	"github.com/ethereum/go-ethereum/core/vm"
 	ethtypes "github.com/ethereum/go-ethereum/core/types"
 	"github.com/ethereum/go-ethereum/crypto"
 
@@ -42,6 +43,7 @@ type World struct {
 	fx    *lib.Token
 	base  sdk.Context // branch of the block context with the world prepared; never written back
 	basePeriod uint64 // distribution period of validator 1 in base
+	tok        *lib.Token // a registered user-owned ERC-20 whose code the harness replaces per tree (hostile transferFrom)
 }
 
 func NewWorld(seed int64) *World {
@@ -63,6 +65,19 @@ func NewWorld(seed int64) *World {
 			DelegatorAddress: sdk.AccAddress(a.Bytes()).String(), ValidatorAddress: w.val1.String(), Amount: lib.FX(1)})
 		lib.Must(err)
 	}
+	c.App.EthKeeper.SetLastObservedBlockHeight(c.Ctx, 1000, uint64(c.Ctx.BlockHeight()))
+	// every frame contract owns one outgoing pool entry (cancelSendToExternal / increaseBridgeFee markers)
+	for i := 0; i < maxFrames; i++ {
+		id, err := c.App.EthKeeper.AddToOutgoingPool(c.Ctx, frameAddr(i).Bytes(), lib.ExternalAccount(seed, "eth", 900+i),
+			lib.Coin(fxtypes.DefaultDenom, int64(poolAmount(i))), lib.Coin(fxtypes.DefaultDenom, poolFee))
+		lib.Must(err)
+		if id != uint64(i+1) {
+			panic("unexpected pool id")
+		}
+	}
+	tok, err := c.SetupExternal("HST", 77, w.owner, []string{"eth"})
+	lib.Must(err)
+	w.tok = tok
 	lib.Must(c.NextBlock())
 	lib.Must(c.NextBlock())
 	w.base, _ = c.Ctx.CacheContext()
@@ -90,6 +105,11 @@ func (w *World) probeRewards() {
 	}
 	rewardsWrite = w.period(ctx) != w.basePeriod
 }
+
+const poolFee = 100
+
+func poolAmount(ctx int) int { return 7000 + ctx }
+func poolID(ctx int) int64   { return int64(ctx + 1) }
 
 func amountOfBit(b int) *big.Int {
 	return new(big.Int).Mul(new(big.Int).Lsh(big.NewInt(1), uint(b)), big.NewInt(unit))
@@ -125,6 +145,26 @@ func (w *World) fill(m *Marker) {
 		amt := new(big.Int).Sub(m.Value, fee)
 		m.Data, err = xabi.Pack("crossChain", common.Address{}, lib.ExternalAccount(w.c.Seed, "eth", m.ID),
 			amt, fee, fxtypes.MustStrToByte32("eth"), "")
+	case MkBridgeCall:
+		m.Target = lib.CrosschainPrecompile
+		m.Value = amountOfBit(m.Bit)
+		m.Data, err = xabi.Pack("bridgeCall", "eth", frameAddr(m.Ctx), []common.Address{}, []*big.Int{}, markerSpender(m.ID), []byte{byte(m.ID)}, big.NewInt(0), []byte{})
+	case MkCancel:
+		m.Target = lib.CrosschainPrecompile
+		m.Data, err = xabi.Pack("cancelSendToExternal", "eth", big.NewInt(poolID(m.Ctx)))
+	case MkIncreaseFee:
+		m.Target = lib.CrosschainPrecompile
+		m.Value = amountOfBit(m.Bit)
+		m.Data, err = xabi.Pack("increaseBridgeFee", "eth", big.NewInt(poolID(m.Ctx)), common.Address{}, m.Value)
+	case MkTokenCB:
+		m.Target = lib.CrosschainPrecompile
+		m.Data, err = xabi.Pack("crossChain", w.tok.ERC20, lib.ExternalAccount(w.c.Seed, "eth", m.ID),
+			big.NewInt(int64(1000+m.ID)), big.NewInt(0), fxtypes.MustStrToByte32("eth"), "")
+		lib.Must(err)
+		m.Inner = &Marker{ID: m.ID + 500, Kind: MkInnerApprove, Ctx: -1, Owner: w.tok.ERC20}
+		m.Inner.Target = lib.StakingPrecompile
+		m.Inner.Value = big.NewInt(0)
+		m.Inner.Data, err = sabi.Pack("approveShares", w.val0.String(), markerSpender(m.Inner.ID), big.NewInt(int64(m.Inner.ID)+1))
 	case MkRewards:
 		m.Target = lib.StakingPrecompile
 		m.Data, err = sabi.Pack("delegationRewards", w.val1.String(), frameAddr(m.Ctx))
@@ -164,9 +204,20 @@ func (w *World) delegated(ctx sdk.Context, del common.Address, val sdk.ValAddres
 // observeNatives decides marker by marker whether its Cosmos-side effect is present in ctx.
 func (w *World) observeNatives(ctx sdk.Context, ms []*Marker, ctxs []int) (present []int, leaks []string) {
 	pool := map[string]bool{} // amount/fee/sender of pool entries
+	feeOf := map[int64]*big.Int{} // pre-made entries still in the pool: id -> fee
 	for _, tx := range w.c.App.EthKeeper.GetUnbatchedTransactions(ctx) {
 		pool[fmt.Sprintf("%s/%s/%s", tx.Token.Amount, tx.Fee.Amount, tx.Sender)] = true
+		if tx.Id <= maxFrames {
+			feeOf[int64(tx.Id)] = tx.Fee.Amount.BigInt()
+		}
 	}
+	bcall := map[string]bool{} // sender/amount of outgoing bridge calls
+	w.c.App.EthKeeper.IterateOutgoingBridgeCalls(ctx, func(oc *crosschaintypes.OutgoingBridgeCall) bool {
+		for _, t := range oc.Tokens {
+			bcall[fmt.Sprintf("%s/%s", strings.ToLower(oc.Sender), t.Amount)] = true
+		}
+		return false
+	})
 	delegatedBy := map[int]*big.Int{}
 	valueBy := map[int]*big.Int{}
 	for _, ci := range ctxs {
@@ -174,6 +225,10 @@ func (w *World) observeNatives(ctx sdk.Context, ms []*Marker, ctxs []int) (prese
 		delegatedBy[ci] = w.delegated(ctx, a, w.val0)
 		bal := w.c.Bal(ctx, a.Bytes(), fxtypes.DefaultDenom)
 		spent := new(big.Int).Sub(w.c.Bal(w.base, a.Bytes(), fxtypes.DefaultDenom), bal)
+		if _, still := feeOf[poolID(ci)]; !still { // the frame's pool entry was cancelled: amount and (increased) fee came back
+			spent.Add(spent, big.NewInt(int64(poolAmount(ci)+poolFee)))
+			// fee increases that preceded the cancellation were refunded with it: nothing of them remains spent
+		}
 		valueBy[ci] = spent.Sub(spent, delegatedBy[ci])
 		if ob := w.allowance(ctx, w.val1, w.owner.Acc(), a.Bytes()); ob.Cmp(big.NewInt(ownerAllow)) != 0 {
 			leaks = append(leaks, fmt.Sprintf("allowance of the outside owner to frame %d changed to %s", ci, ob))
@@ -185,6 +240,14 @@ func (w *World) observeNatives(ctx sdk.Context, ms []*Marker, ctxs []int) (prese
 	}
 	for _, m := range ms {
 		switch m.Kind {
+		case MkInnerApprove:
+			if w.allowance(ctx, w.val0, m.Owner.Bytes(), markerSpender(m.ID).Bytes()).Sign() != 0 {
+				present = append(present, m.ID)
+			}
+		case MkTokenCB:
+			if pool[fmt.Sprintf("%d/0/%s", 1000+m.ID, sdk.AccAddress(frameAddr(m.Ctx).Bytes()).String())] {
+				present = append(present, m.ID)
+			}
 		case MkApprove:
 			if w.allowance(ctx, w.val0, frameAddr(m.Ctx).Bytes(), markerSpender(m.ID).Bytes()).Sign() != 0 {
 				present = append(present, m.ID)
@@ -197,6 +260,24 @@ func (w *World) observeNatives(ctx sdk.Context, ms []*Marker, ctxs []int) (prese
 			fee := big.NewInt(int64(m.ID) + 1)
 			amt := new(big.Int).Sub(m.Value, fee)
 			if pool[fmt.Sprintf("%s/%s/%s", amt, fee, sdk.AccAddress(frameAddr(m.Ctx).Bytes()).String())] {
+				present = append(present, m.ID)
+			}
+			if bitSet(valueBy[m.Ctx], m.Bit) {
+				present = append(present, transferBase+m.ID)
+			}
+		case MkBridgeCall:
+			if bcall[fmt.Sprintf("%s/%s", strings.ToLower(frameAddr(m.Ctx).Hex()), m.Value)] {
+				present = append(present, m.ID)
+			}
+			if bitSet(valueBy[m.Ctx], m.Bit) {
+				present = append(present, transferBase+m.ID)
+			}
+		case MkCancel:
+			if _, still := feeOf[poolID(m.Ctx)]; !still {
+				present = append(present, m.ID)
+			}
+		case MkIncreaseFee:
+			if f, still := feeOf[poolID(m.Ctx)]; still && bitSet(new(big.Int).Sub(f, big.NewInt(poolFee)), m.Bit) {
 				present = append(present, m.ID)
 			}
 			if bitSet(valueBy[m.Ctx], m.Bit) {
@@ -238,15 +319,32 @@ func logKey(addr common.Address, topics []common.Hash, data []byte) string {
 	return string(crypto.Keccak256(b))
 }
 
+var tokenBase = "hst"
+
+// hostileToken: runtime code of the registered ERC-20 for one tree: whatever is called, it calls the staking
+// precompile with the inner marker's calldata, insists on success, and returns true.
+func hostileToken(in *Marker) []byte {
+	a := (&lib.Asm{}).Call(lib.CALL, in.Target, 0, nil, in.Data).RequireSuccess()
+	a.PushU(1).PushU(0).Op(vm.MSTORE).PushU(32).PushU(0).Op(vm.RETURN)
+	return a.B
+}
+
 // eventMarkers attributes sdk events to markers through the unique amounts they carry.
 func eventMarkers(evs sdk.Events, ms []*Marker) []int {
 	byAmount := map[string]int{}
+	byCancel := map[string]int{} // pool id -> cancel marker
 	for _, m := range ms {
 		switch m.Kind {
 		case MkDelegate:
 			byAmount[amountOfBit(m.Bit).String()+fxtypes.DefaultDenom] = m.ID
 		case MkXChain:
 			byAmount[m.Value.String()+fxtypes.DefaultDenom] = m.ID
+		case MkTokenCB:
+			byAmount[fmt.Sprintf("%d%s", 1000+m.ID, tokenBase)] = m.ID
+		case MkBridgeCall, MkIncreaseFee:
+			byAmount[m.Value.String()+fxtypes.DefaultDenom] = m.ID
+		case MkCancel:
+			byCancel[fmt.Sprint(poolID(m.Ctx))] = m.ID
 		}
 	}
 	seen := map[int]bool{}
@@ -254,6 +352,11 @@ func eventMarkers(evs sdk.Events, ms []*Marker) []int {
 		for _, a := range e.Attributes {
 			if id, ok := byAmount[a.Value]; ok {
 				seen[id] = true
+			}
+			if e.Type == crosschaintypes.EventTypeSendToExternalCanceled && a.Key == crosschaintypes.AttributeKeyOutgoingTxID {
+				if id, ok := byCancel[a.Value]; ok {
+					seen[id] = true
+				}
 			}
 		}
 	}
